@@ -112,7 +112,7 @@ fn case(srv: &mut Srv, seed: u64, res: &mut CaseResult) -> R<()> {
     for ev in 0..n_events {
         let name = names[rng.below(2)];
         let ctx = ctxs[rng.below(2)];
-        let kind = if !current.contains_key(name) { *rng.pick(&["define", "define", "call", "define-bad"]) } else { *rng.pick(&["call", "call", "call-burst", "define", "define-bad", "call"]) };
+        let kind = if !current.contains_key(name) { *rng.pick(&["define", "define", "call", "define-bad"]) } else { *rng.pick(&["call", "call", "call-burst", "define", "define-bad", "call", "redefine-identical"]) };
         events.push(format!("{}:{}", kind, name));
         match kind {
             "define" => {
@@ -126,6 +126,14 @@ fn case(srv: &mut Srv, seed: u64, res: &mut CaseResult) -> R<()> {
                 }
                 res.seen("definition_shapes", format!("k={}/sleep={}/append={}/fail={}/suffix={:?}/ttl={:?}", d.k, d.sleep_ms, d.with_append, d.fail, d.suffix, d.ttl));
                 current.insert(name.to_string(), (f.id, d));
+            }
+            "redefine-identical" => {
+                // the same script bytes again: a new definition frame, whose id later results must carry
+                let (_, d) = current.get(name).cloned().unwrap();
+                let f = srv.must_append(&format!("{}.define", name), ctx, Some(def_script(&d).as_bytes()), None, None)?;
+                srv.settle(Duration::from_millis(60), Duration::from_secs(5))?;
+                current.insert(name.to_string(), (f.id, d));
+                res.count("identical_redefinitions", 1);
             }
             "define-bad" => {
                 let f = srv.must_append(&format!("{}.define", name), ctx, Some(rng.pick(BAD_DEFS).as_bytes()), None, None)?;
